@@ -18,6 +18,7 @@ package main
 import (
 	"fmt"
 	"math/big"
+	"runtime"
 	"sort"
 	"strings"
 	"time"
@@ -123,18 +124,48 @@ func observe(c gx.Case, v gx.Variant, viol *[]hx.OracleViolation) fields {
 	}
 	h := base.Relabel(v.Perm) // the harness's own copy of the variant graph
 	inv := gx.Inverse(v.Perm)
-	g := gx.Build(v.Rep, base, v.Perm)
+	g, edit := buildAny(v.Rep, base, v.Perm)
+	if !presents(g, h) {
+		if strings.IndexByte(extraReps, v.Rep) < 0 {
+			fail("representation", "the %c representation does not present the intended graph", v.Rep)
+		}
+		// a decoder / edit history that yields another graph is another property's business
+		g, edit = gx.Build('d', base, v.Perm), func() {}
+	}
+	// between every two calls: edit the base of an edited view, check that the argument still
+	// presents the same graph and that no earlier result has been written into
+	tick := func(after string) {
+		edit()
+		if !presents(g, h) {
+			fail(after, "the argument graph no longer presents the same graph after the call")
+		}
+		checkHeld(after+" on "+c.G6+" "+tag, viol)
+	}
+	tick("building the graph")
 	f := fields{n: g.N(), m: g.M(), ci: -2}
 
 	// cliques
 	f.w = graph.CliqueNumber(g)
+	tick("CliqueNumber")
 	f.a = graph.IndependenceNumber(g)
-	ch := make(chan []int)
+	tick("IndependenceNumber")
+	// call pattern of AllMaximalCliques: unbuffered / buffered channel, consumer that copies at
+	// once or keeps the slices as sent (a producer that re-uses a buffer shows up at the end),
+	// fast or slow consumer; chosen from the variant
+	pat := (len(c.G6)*7 + len(tag)*3 + int(v.Rep)) % 6
+	ch := make(chan []int, []int{0, 0, 1, 4, 64, 1024}[pat])
 	go graph.AllMaximalCliques(g, ch)
 	var mc [][]int
 	seen := map[string]bool{}
 	var raw []string
+	var asSent [][]int
 	for cl := range ch {
+		if pat%2 == 1 {
+			for k := 0; k < 3; k++ {
+				runtime.Gosched()
+			}
+		}
+		asSent = append(asSent, cl)
 		cl = append([]int(nil), cl...)
 		raw = append(raw, gx.JoinInts(cl, "."))
 		s := hx.SortedCopy(cl)
@@ -179,12 +210,24 @@ func observe(c gx.Case, v gx.Variant, viol *[]hx.OracleViolation) fields {
 		seen[key] = true
 		mc = append(mc, b)
 	}
+	for i, cl := range asSent {
+		if gx.JoinInts(cl, ".") != raw[i] {
+			fail("AllMaximalCliques", "clique number %d read %s when received and reads %v after the channel was closed (channel capacity %d)", i, raw[i], cl, cap(ch))
+		}
+	}
+	if len(asSent) > 0 {
+		first := asSent[0]
+		holdInts("AllMaximalCliques[0] of "+c.G6+" "+tag, first)
+	}
+	tick("AllMaximalCliques")
 	gx.SortLists(mc)
 	f.mc = fmt.Sprintf("%d:%s", len(mc), gx.Lists(mc))
 	f.bk = strings.Join(raw, "/")
 
 	// chromatic number with witness
 	chi, col := graph.ChromaticNumber(g)
+	holdInts("ChromaticNumber colouring of "+c.G6+" "+tag, col)
+	tick("ChromaticNumber")
 	f.chi = chi
 	f.ds = fmt.Sprintf("%d:%s", chi, showCol(col))
 	var dk []string
@@ -204,6 +247,10 @@ func observe(c gx.Case, v gx.Variant, viol *[]hx.OracleViolation) fields {
 	}
 	for k := 0; k <= n+1; k++ {
 		ok, kcol := graph.IsKColorable(g, k)
+		if k == chi || k == n+1 {
+			holdInts(fmt.Sprintf("IsKColorable(%d) colouring of %s %s", k, c.G6, tag), kcol)
+		}
+		tick("IsKColorable")
 		if ok {
 			dk = append(dk, "1:"+showCol(kcol))
 		} else {
@@ -228,6 +275,14 @@ func observe(c gx.Case, v gx.Variant, viol *[]hx.OracleViolation) fields {
 	}
 
 	f.dk = strings.Join(dk, "/")
+	// values of k outside 0..n+1: far more colours than vertices; k = -1 (no colouring with -1 colours)
+	if ok, kcol := graph.IsKColorable(g, n+1000); !ok || !isProper(h, kcol) {
+		fail("IsKColorable", "k=%d answers %v with colouring %v", n+1000, ok, kcol)
+	}
+	if ok, kcol := graph.IsKColorable(g, -1); n > 0 && (ok || kcol != nil) {
+		fail("IsKColorable", "k=-1 answers %v with colouring %v", ok, kcol)
+	}
+	tick("IsKColorable with extreme k")
 
 	// chromatic index with witness
 	f.lg = "-"
@@ -239,6 +294,10 @@ func observe(c gx.Case, v gx.Variant, viol *[]hx.OracleViolation) fields {
 		}
 		f.lg = sb.String()
 		ci, ce := graph.ChromaticIndex(g)
+		if ce != nil {
+			hold("ChromaticIndex edge array of "+c.G6+" "+tag, func() string { return fmtBytes(ce) })
+		}
+		tick("ChromaticIndex")
 		f.ci = ci
 		if ce == nil {
 			f.dci = fmt.Sprintf("%d:nil", ci)
@@ -293,6 +352,8 @@ func observe(c gx.Case, v gx.Variant, viol *[]hx.OracleViolation) fields {
 	// chromatic polynomial (editable representations only)
 	if eg, ok := g.(graph.EditableGraph); ok && n <= maxNPoly {
 		poly := graph.ChromaticPolynomial(eg)
+		holdInts("ChromaticPolynomial coefficients of "+c.G6+" "+tag, poly)
+		tick("ChromaticPolynomial")
 		if len(poly) != n+1 {
 			fail("ChromaticPolynomial", "%d coefficients for n=%d", len(poly), n)
 		}
@@ -314,6 +375,8 @@ func observe(c gx.Case, v gx.Variant, viol *[]hx.OracleViolation) fields {
 
 	// degeneracy with certificate
 	d, order := graph.Degeneracy(g)
+	holdInts("Degeneracy order of "+c.G6+" "+tag, order)
+	tick("Degeneracy")
 	f.dg = d
 	f.ord = gx.JoinInts(order, ".")
 	if !isPerm(order, n) {
@@ -344,7 +407,16 @@ func observe(c gx.Case, v gx.Variant, viol *[]hx.OracleViolation) fields {
 			for i, b := range t.Ints {
 				ord[i] = inv[b]
 			}
+			ordSnap := append([]int(nil), ord...)
 			mx, gc := graph.GreedyColor(g, ord)
+			if gx.JoinInts(ord, ".") != gx.JoinInts(ordSnap, ".") {
+				fail("GreedyColor", "the order slice %v was changed to %v", ordSnap, ord)
+			}
+			for i := range ord { // the caller re-uses its slice: the result must not live in it
+				ord[i] = -1
+			}
+			holdInts("GreedyColor colouring of "+c.G6+" "+tag, gc)
+			tick("GreedyColor")
 			if len(gc) != n {
 				fail("GreedyColor", "colouring of length %d", len(gc))
 				f.gr = append(f.gr, "?")
@@ -362,7 +434,7 @@ func observe(c gx.Case, v gx.Variant, viol *[]hx.OracleViolation) fields {
 				fail("GreedyColor", "returned maximum %d, colouring %v", mx, gc)
 			}
 			if !isProper(h, gc) {
-				fail("GreedyColor", "order %v: colouring %v is not proper", ord, gc)
+				fail("GreedyColor", "order %v: colouring %v is not proper", ordSnap, gc)
 			}
 			if got := graph.IsProperColouring(g, gc); got != isProper(h, gc) {
 				fail("IsProperColouring", "on the greedy colouring %v: %v", gc, got)
@@ -375,12 +447,40 @@ func observe(c gx.Case, v gx.Variant, viol *[]hx.OracleViolation) fields {
 					pc[i] = t.Ints[v.Perm[i]]
 				}
 			}
-			if graph.IsProperColouring(g, pc) {
+			pcSnap := append([]int(nil), pc...)
+			verdict := graph.IsProperColouring(g, pc)
+			if gx.JoinInts(pc, ".") != gx.JoinInts(pcSnap, ".") {
+				fail("IsProperColouring", "the colouring slice %v was changed to %v", pcSnap, pc)
+			}
+			for i := range pc {
+				pc[i] = 0
+			}
+			tick("IsProperColouring")
+			if verdict {
 				f.pr = append(f.pr, "t")
 			} else {
 				f.pr = append(f.pr, "f")
 			}
 		}
+	}
+	// a documented panic (order of the wrong length), recovered, followed by further calls
+	if n >= 1 {
+		panicked := func() (p bool) {
+			defer func() { p = recover() != nil }()
+			graph.GreedyColor(g, gx.Identity(n-1))
+			return
+		}()
+		if !panicked {
+			fail("GreedyColor", "no panic for an order of length n-1")
+		}
+		tick("GreedyColor (recovered panic)")
+		if mx2, gc2 := graph.GreedyColor(g, gx.Identity(n)); gx.JoinInts(gc2, ".") != gx.JoinInts(refGreedy(h, gx.Identity(n)), ".") || len(gc2) != n {
+			fail("GreedyColor", "after a recovered panic: colouring %v (max %d) is not first-fit along 0..n-1", gc2, mx2)
+		}
+		if c2, col2 := graph.ChromaticNumber(g); c2 != chi || !isProper(h, col2) {
+			fail("ChromaticNumber", "second call on the same graph: %d %v, first call %d", c2, col2, chi)
+		}
+		tick("second calls")
 	}
 	// the optimal colourings are inputs for IsProperColouring too
 	if !graph.IsProperColouring(g, col) && isProper(h, col) {
@@ -412,6 +512,11 @@ func exec(line string) hx.Result {
 	var viol []hx.OracleViolation
 	ref := reference(c)
 	vars := append([]gx.Variant{{Rep: 'd', Perm: gx.Identity(c.Base.N)}}, c.Vars...)
+	for _, t := range c.Toks { // provenance variants (prov.go)
+		if strings.IndexByte(extraReps, t.Kind) >= 0 {
+			vars = append(vars, gx.Variant{Rep: t.Kind, Perm: t.Ints})
+		}
+	}
 	var first fields
 	nonDense := false
 	for i, v := range vars {
